@@ -166,6 +166,18 @@ def rematerialise (exec : State) (k : Nat) (m : RV) : State :=
   | .hash h => rematHash exec k h
   | _ => rematLww exec k m
 
+/-- the executor side of `ApplyRecoveredState`: live hash fields by HSET (tombstoned fields are
+    NOT deleted), a live string by SET [PX] (`recoverStr`); a tombstone deletes nothing -/
+def recoverStr (exec : State) (k : Nat) (v : RV) : State :=
+  match v.get with
+  | some x => rematStr exec k x v.expiry
+  | none => exec
+
+def recoverExec (exec : State) (k : Nat) (v : RV) : State :=
+  match v.crdt with
+  | .hash h => if (liveFields h).isEmpty then exec else (execStep exec (.hset k (liveFields h))).1
+  | _ => recoverStr exec k v
+
 namespace Node
 
 /-- `apply_remote_delta_impl(delta)` -/
@@ -175,17 +187,9 @@ def deliver (n : Node) (k : Nat) (d : RV) : Node :=
   | some m => { exec := rematerialise n.exec k m, rs := n.rs.applyRemote k d }
 
 /-- `ReplicatedShardMessage::ApplyRecoveredState { key, value }`: plain insert, clock update, and
-    the value (NOT a merge) goes into the executor: live hash fields by HSET (tombstoned fields
-    are not deleted), live string by SET [PX]; a tombstone deletes nothing -/
+    the value (NOT a merge) goes into the executor — see `recoverExec` -/
 def recovered (n : Node) (k : Nat) (v : RV) : Node :=
-  { exec :=
-      (match v.crdt with
-       | .hash h => if (liveFields h).isEmpty then n.exec else (execStep n.exec (.hset k (liveFields h))).1
-       | _ =>
-         match v.get with
-         | some x => rematStr n.exec k x v.expiry
-         | none => n.exec)
-    rs := n.rs.applyRecovered k v }
+  { exec := recoverExec n.exec k v, rs := n.rs.applyRecovered k v }
 
 end Node
 
